@@ -167,6 +167,38 @@ class Harness(object):
     def vec(self, name, n, cplx):
         return self.complex_vec(name, n) if cplx else self.real_vec(name, n)
 
+    BASE = [1.0, -0.5, 2.0, 0.75, -1.25, 0.5, 1.5, -2.0, 0.25, 1.75, -0.75, 1.25, -1.5, 2.25, 0.375, -1.0]
+
+    def mixed_vec(self, name, n, cplx, nsym, offset=0):
+        """data vector whose first `nsym` samples are free symbols and whose remaining samples are fixed dyadic
+        constants (used where a fully symbolic vector is out of reach: the verdict then covers every value of the
+        symbolic samples with the other samples pinned - stated in the bounds)"""
+        nsym = min(nsym, n)
+        if self.mode == 'sym':
+            els = []
+            for i in range(n):
+                if i < nsym:
+                    els.append(Sym.complex_var("%s%d" % (name, i), kind='input') if cplx
+                               else Sym.real_var("%s%d" % (name, i), kind='input'))
+                else:
+                    b = self.BASE[(i + offset) % len(self.BASE)]
+                    els.append(complex(b, self.BASE[(i + offset + 5) % len(self.BASE)]) if cplx else b)
+            return SymArray.make(els, cplx=cplx)
+        vals = []
+        for i in range(n):
+            if i < nsym:
+                if cplx:
+                    vals.append(complex(self._val("%s%d_re" % (name, i), self._next_default()),
+                                        self._val("%s%d_im" % (name, i), self._next_default())))
+                else:
+                    vals.append(self._val("%s%d" % (name, i), self._next_default()))
+            else:
+                b = self.BASE[(i + offset) % len(self.BASE)]
+                vals.append(complex(b, self.BASE[(i + offset + 5) % len(self.BASE)]) if cplx else b)
+        v = np.array(vals, dtype=complex if cplx else float)
+        self.inputs[name] = [[z.real, z.imag] for z in v] if cplx else v.tolist()
+        return v
+
     def const_vec(self, values, cplx=False):
         """concrete data entering as exact constants"""
         if self.mode == 'sym':
